@@ -10,9 +10,10 @@ let show_ct = function Ok b -> hexs b | Err -> "enc-err" | Panic -> "PANIC"
 
 let rec take n l = if n = 0 then [] else match l with [] -> [] | x :: t -> x :: take (n - 1) t
 let rec drop n l = if n = 0 then l else match l with [] -> [] | _ :: t -> drop (n - 1) t
+(* data-key templates of the KMS envelope: (kind of model/EnvelopeDek.v, key length) *)
 let dek_info = function
-  | "gcm16" -> ("gcm", 16, 0x1a) | "gcm32" -> ("gcm", 32, 0x1a) | "chacha" -> ("chacha", 32, 0x12)
-  | "xchacha" -> ("xchacha", 32, 0x1a) | "siv16" -> ("siv", 16, 0x1a) | "siv32" -> ("siv", 32, 0x1a)
+  | "gcm16" -> (DekGcm, 16) | "gcm32" -> (DekGcm, 32) | "chacha" -> (DekChacha, 32)
+  | "xchacha" -> (DekXchacha, 32) | "siv16" -> (DekSiv, 16) | "siv32" -> (DekSiv, 32)
   | d -> failwith ("dek " ^ d)
 
 (* key description -> (enc iv p ad, dec c ad, ivlen) *)
@@ -61,18 +62,18 @@ let rec scheme_of (f : string array) =
     (match String.split_on_char '~' f.(4) with
      | dek :: ks :: kr :: kp ->
        let (kenc, kdec, kivlen) = scheme_of [| ks; kr; f.(2); f.(3); String.concat "~" kp; f.(5) |] in
-       let (ds, dklen, dtag) = dek_info dek in
-       let dek_fns d = match dek_key (n_of_int dtag) d with
-         | None -> None
-         | Some k -> Some (scheme_of [| ds; "H"; "R"; "0"; "-"; hexs k |]) in
-       let (_, _, divlen) = scheme_of [| ds; "H"; "R"; "0"; "-"; hexs (List.init dklen (fun _ -> N0)) |] in
-       let dek_enc d iv p ad = match dek_fns d with None -> Err | Some (e, _, _) -> e iv p ad in
-       let dek_dec d c ad = match dek_fns d with None -> Err | Some (_, dd, _) -> dd c ad in
+       (* the data-key AEAD is the Coq definition EnvelopeDek.dek_enc / dek_dec (serialised DEK ->
+          parse, key-size check, RAW primitive of the key type), the one the closed envelope theorems are about *)
+       let (kd, dklen) = dek_info dek in
+       let aes = fun k b -> obytes "aes_enc" [k; b] in
+       let denc = dek_enc aes (o_seal "gcm") (o_seal "chacha") (o_seal "xchacha") kd in
+       let ddec = dek_dec aes (o_open "gcm") (o_open "chacha") (o_open "xchacha") kd in
+       let divlen = int_of_nat (dek_ivlen kd) in
        ((fun tape p ad ->
            let dk = take dklen tape in
            let kiv = take kivlen (drop dklen tape) and div = drop (dklen + kivlen) tape in
-           env_enc kenc dek_enc (dek_proto (n_of_int dtag) dk) kiv div p ad),
-        (fun c ad -> env_dec kdec dek_dec c ad), dklen + kivlen + divlen)
+           env_enc kenc denc (dek_proto (dek_tag kd) dk) kiv div p ad),
+        (fun c ad -> env_dec kdec ddec c ad), dklen + kivlen + divlen)
      | _ -> failwith "env params")
   | _ -> failwith ("scheme " ^ scheme ^ route)
 
